@@ -6,8 +6,9 @@ CONSTANTS
   HashBad = {"F"}
   HashBroken = FALSE
   DivByTerms = TRUE
-  MulShortcut = TRUE
+  MulShortcut = FALSE
   CtorDedup = TRUE
+  TermBySet = TRUE
   MaxOps = 2
   DoExport = FALSE
 INVARIANT Refines
